@@ -358,6 +358,19 @@ class WorldGen:
                 ],
                 "kw": {},
             }
+            if self.sw.on["Not"] and rng.random() < 0.25:
+                # a branch that hands the value through untouched (`not`)
+                # next to branches that build an object from it: an all-object
+                # composition that dict values can actually pass
+                not_branch = {"k": "Not", "el": {"k": rng.choice(SCALAR_KINDS), "kw": {}}, "kw": {}}
+                builders = [
+                    {"k": "Element", "kw": {"properties": self.props(depth + 1, 1)}}
+                    for _ in range(rng.randint(1, 2))
+                ]
+                if rng.random() < 0.5:
+                    spec["els"] = [not_branch] + builders
+                else:
+                    spec["els"] = builders + [not_branch]
             if self.sw.on["defaults"] and self.maybe(0.15):
                 spec["kw"]["default"] = self.literal()
             return spec
@@ -411,6 +424,8 @@ class WorldGen:
         entry = {"id": cid, "name": name, "base": base, "props": props, "kw": kw}
         if base is None and rng.random() < 0.2:
             entry["inline"] = True  # declared through Object.inline(...)
+        if base is not None and rng.random() < 0.15:
+            entry["mixin"] = rng.choice(["first", "last"])  # class C(Mixin, Base) / class C(Base, Mixin)
         self.world["classes"].append(entry)
         return entry
 
